@@ -98,8 +98,9 @@ def check(spec, cx, out):
         A, L = cx.t(f"A{i}"), cx.t(f"L{i}")
         start = A + delta
         last_rec = start + z3.If(L > 0, z3.UDiv(L - 1, B(0xFFFF)) * 0xFFFF, B(0))
-        covers_eof = z3.And(L > 0, start <= EOF_MARK, EOF_MARK < start + L)
-        res.append(("refused-only-if-unrepresentable", z3.And(L > 0, z3.Or(last_rec >= (1 << 24), covers_eof))))
+        # unrepresentable: a record offset beyond 24 bits, or the block itself starting on the EOF marker (a block that
+        # merely covers 0x454F46 is representable: a record boundary can always be placed one byte earlier)
+        res.append(("refused-only-if-unrepresentable", z3.And(L > 0, z3.Or(last_rec >= (1 << 24), start == EOF_MARK))))
         return res
     pieces = out[1]
     try:
